@@ -67,6 +67,11 @@ THEOREMS = [
     "Cotengra.C06.stack_axes",
     "Cotengra.C06.gather_denote",
     "Cotengra.C06.gather_sum",
+    "Cotengra.C06.keysCert_sound",
+    "Cotengra.C06.slice_is_section",
+    "Cotengra.C06.slice_sum",
+    "Cotengra.C06.gather_correct",
+    "Cotengra.C06.gather_correct_canonical",
 ]
 TRUSTED = [
     "Lean 4.33 kernel; axioms ⊆ {propext, Classical.choice, Quot.sound}",
